@@ -498,6 +498,7 @@ class OverhangFilter(Module):
     def _sensitivity(self, dxprint):
         x = self.sig_in[0].state
         xprint = self.sig_out[0].state
+        dxprint = dxprint.copy()  # Do not modify the incoming sensitivity
         dx = np.zeros_like(dxprint)
 
         # Size of the domain
